@@ -635,4 +635,75 @@ example : deltaWrites 3 ⟨47, [(3, 10), (5, 11)]⟩ = [(3, 10)] := by decide
 example : directWrites [1, 2, 3] ⟨59, [(3, 10), (2, 11)]⟩ = some [(3, 10), (2, 11)] := by decide
 
 
+
+
+section Plan
+variable {κ : Type} (cfg : Cfg) (d : Bytes → Except Err Nat) (one : One κ)
+
+/-- a whole plan: the log cut into consecutive batches, each applied with `runBatchResume` -/
+def runPartition (st : St κ) (batches : List (List Cmd)) : St κ :=
+  batches.foldl (fun s b => runBatchResume cfg d one s b) st
+
+theorem seqSkip_append (st : St κ) (a b : List Cmd) :
+    seqSkip cfg d one st (a ++ b) = seqSkip cfg d one (seqSkip cfg d one st a) b := by
+  induction a generalizing st with
+  | nil => rfl
+  | cons c cs ih =>
+    simp only [List.cons_append, seqSkip]
+    cases stepOne cfg d one st c with
+    | error e => exact ih st
+    | ok p => exact ih p.1
+
+/-- the applied index after a skipping run is the old one or the index of one of its commands -/
+theorem seqSkip_applied (st : St κ) (cs : List Cmd) (hpos : ∀ c ∈ cs, c.index > 0) :
+    (seqSkip cfg d one st cs).applied = st.applied ∨ ∃ c ∈ cs, (seqSkip cfg d one st cs).applied = c.index := by
+  induction cs generalizing st with
+  | nil => left; rfl
+  | cons x xs ih =>
+    have hx := hpos x (List.mem_cons_self ..)
+    have hxs : ∀ c ∈ xs, c.index > 0 := fun c hc => hpos c (List.mem_cons_of_mem _ hc)
+    simp only [seqSkip]
+    cases hs : stepOne cfg d one st x with
+    | error e =>
+      simp only
+      rcases ih st hxs with h | ⟨c, hc, h⟩
+      · left; exact h
+      · right; exact ⟨c, List.mem_cons_of_mem _ hc, h⟩
+    | ok p =>
+      obtain ⟨st', r⟩ := p
+      simp only
+      rcases ih st' hxs with h | ⟨c, hc, h⟩
+      · rcases stepOne_applied cfg d one st st' x r hs hx with ha | ⟨he, _⟩
+        · right; exact ⟨x, List.mem_cons_self .., by rw [h, ha]⟩
+        · left; rw [h, he]
+      · right; exact ⟨c, List.mem_cons_of_mem _ hc, h⟩
+
+/-- **partition transparency for whole logs, refused commands included**: cut a log with
+    increasing indices into consecutive batches in ANY way; applying the batches one after the
+    other (a refused batch writes nothing and is resumed one command at a time above the applied
+    index) reaches exactly the state of the one-at-a-time run that skips the refused commands —
+    the statement the differential plans (`run 9,3,8,…`) test, for every plan. -/
+theorem c13_any_partition_transparent (st : St κ) (batches : List (List Cmd))
+    (hsorted : batches.flatten.Pairwise (fun a b => a.index < b.index))
+    (hpos : ∀ c ∈ batches.flatten, c.index > st.applied) :
+    runPartition cfg d one st batches = seqSkip cfg d one st batches.flatten := by
+  induction batches generalizing st with
+  | nil => rfl
+  | cons b bs ih =>
+    simp only [runPartition, List.foldl_cons, List.flatten_cons] at hsorted hpos ⊢
+    have hb : ∀ c ∈ b, c.index > st.applied := fun c hc => hpos c (List.mem_append_left _ hc)
+    rw [c13_refused_batch_resume cfg d one st b hb, seqSkip_append]
+    have hs := List.pairwise_append.1 hsorted
+    apply ih (seqSkip cfg d one st b) hs.2.1
+    intro c hc
+    rcases seqSkip_applied cfg d one st b (fun x hx => by have := hb x hx; omega) with h | ⟨x, hx, h⟩
+    · rw [h]; exact hpos c (List.mem_append_right _ hc)
+    · rw [h]; exact hs.2.2 x hx c hc
+
+end Plan
+
+example : (runPartition demoCfg demoD demoOne ⟨[], 0⟩
+    [[⟨1, 1, 1, [1, 1, 7]⟩, ⟨1, 4, 2, [1, 19]⟩], [⟨1, 1, 3, [1, 1, 8]⟩]]).kv = [[8], [7]] := by decide
+
+
 end WK.C13
